@@ -19,7 +19,7 @@ THEOREMS = ["Hyp.Query." + t for t in (
     "c04_budget_irrelevant", "c04_and", "c04_or", "c04_well_typed_succeeds", "c04_and_constructor",
     "c04_or_constructor", "c04_not_is_negate", "c04_complement_partial", "c04_negate_complement_partial",
     "c04_notall_violates_complement", "c04_end_to_end", "c04_apply_congruence", "c04_and_end_to_end")]
-CASES = {"quick": 1500, "thorough": 150000}
+CASES = {"quick": 6000, "thorough": 150000}
 BUDGET_S = {"quick": 40, "thorough": 700}
 RULE = ("catalogs of 1-4 real indexes (field, keyword, facet, text) with 0-25 documents; half of the catalogs are "
         "Total (every document has a non-empty value in every index) and exercise the complement clause, the "
